@@ -16,7 +16,8 @@ EXPLANATION = (
     "resolution_id before use; R6 a function keeps its symbol name although constants are globals in the same LLVM namespace "
     "(the name is freed before LLVMAddFunction); R8 call instructions carry the calling convention of the callee; R7 (shared with C01) struct insert/extract/GEP indices derive from the member offset the typer "
     "resolved by name, never from source position (constant aggregates of the wrong shape pass the in-process verifier "
-    "and are only rejected by llvm-as). Validity of every emitted instruction is decided by LLVM at run time: not decided.")
+    "and are only rejected by llvm-as). Validity of every emitted instruction is decided by LLVM at run time: not decided."
+    " ROUNDS 5-6: R9 a builtin that expands directly to a literal gives it the type the typer announced (line!: usize; file!: announced as slice, expanded to an array -- known finding).")
 
 GEN = "alpha::generator::Generator"
 
